@@ -375,18 +375,21 @@ class VerifyResult(object):
     pass
 
 
-def lib_verify(ctx, msg, mb=None):
+def lib_verify(ctx, msg, mb=None, extra=None):
     own = mb is None
     if own:
         mb = ctx.inbuf(msg)
+    xb = ctx.inbuf(extra) if extra else None
     ct = ctypes.c_int(-7)
     cp, cl = ctypes.c_void_p(), ctypes.c_size_t()
     certs, certsl = ctypes.c_void_p(), ctypes.c_size_t()
     crls, crlsl = ctypes.c_void_p(), ctypes.c_size_t()
     sis, sisl = ctypes.c_void_p(), ctypes.c_size_t()
-    r = ctx.lib.cms_verify(mb, len(msg), None, 0, None, 0, ctypes.byref(ct), ctypes.byref(cp), ctypes.byref(cl),
+    r = ctx.lib.cms_verify(mb, len(msg), xb, len(extra) if extra else 0, None, 0, ctypes.byref(ct), ctypes.byref(cp), ctypes.byref(cl),
                            ctypes.byref(certs), ctypes.byref(certsl), ctypes.byref(crls), ctypes.byref(crlsl),
                            ctypes.byref(sis), ctypes.byref(sisl))
+    if xb is not None:
+        xb.free()
     v = VerifyResult()
     v.ret = r
     if r == 1:
@@ -478,10 +481,11 @@ def lib_decrypt(ctx, msg, key, cap, mb=None):
     return o
 
 
-def lib_deenvelop_and_verify(ctx, msg, keyobj, cert, cap, mb=None):
+def lib_deenvelop_and_verify(ctx, msg, keyobj, cert, cap, mb=None, extra=None):
     own = mb is None
     if own:
         mb = ctx.inbuf(msg)
+    xb = ctx.inbuf(extra) if extra else None
     cb, ob = ctx.inbuf(cert), ctx.buf(cap, fill=0xA5)
     ct, cl = ctypes.c_int(-7), ctypes.c_size_t()
     ri, ril = ctypes.c_void_p(), ctypes.c_size_t()
@@ -489,7 +493,7 @@ def lib_deenvelop_and_verify(ctx, msg, keyobj, cert, cap, mb=None):
     certs, certsl = ctypes.c_void_p(), ctypes.c_size_t()
     crls, crlsl = ctypes.c_void_p(), ctypes.c_size_t()
     s1, s1l, s2, s2l = ctypes.c_void_p(), ctypes.c_size_t(), ctypes.c_void_p(), ctypes.c_size_t()
-    r = ctx.lib.cms_deenvelop_and_verify(mb, len(msg), keyobj, cb, len(cert), None, 0, None, 0, ctypes.byref(ct), ob,
+    r = ctx.lib.cms_deenvelop_and_verify(mb, len(msg), keyobj, cb, len(cert), xb, len(extra) if extra else 0, None, 0, ctypes.byref(ct), ob,
                                          ctypes.byref(cl), ctypes.byref(ri), ctypes.byref(ril), ctypes.byref(si),
                                          ctypes.byref(sil), ctypes.byref(certs), ctypes.byref(certsl), ctypes.byref(crls),
                                          ctypes.byref(crlsl), ctypes.byref(s1), ctypes.byref(s1l), ctypes.byref(s2),
@@ -501,6 +505,8 @@ def lib_deenvelop_and_verify(ctx, msg, keyobj, cert, cap, mb=None):
         o.certs = ctypes.string_at(certs.value, certsl.value) if certs.value and certsl.value else b''
     cb.free()
     ob.free()
+    if xb is not None:
+        xb.free()
     if own:
         mb.free()
     return o
@@ -641,6 +647,16 @@ def u_sign(ctx, u):
         # the library accepted: the reference must agree that every SignerInfo is valid under the certificate it names
         rep.judge(ref is not None and len(ref) == ns and all(x == 'ok' for x in ref),
                   'sign:verify-accepted-signer-info-invalid-by-reference', **detail)
+    # the verifier's own certificates (an argument of the interface) next to the ones the message carries: an unrelated one,
+    # only the first signer's, all of them plus an unrelated one - the message itself is unchanged and stays valid
+    if v.ret == 1:
+        stranger = Pki(rng, 'normal').leaf('verifier-owned', R.pub(rng.randrange(1, N - 1)), X.KU_DIGITAL_SIGNATURE)
+        for how, extra in (('unrelated', stranger), ('first-signer-only', signers[0].cert),
+                           ('all-signers-and-unrelated', b''.join(s_.cert for s_ in signers) + stranger)):
+            ctx.begin(['cms_verify', 'extra-certs', how, ns])
+            v2 = lib_verify(ctx, msg, extra=extra)
+            rep.judge(v2.ret == 1 and v2.content == v.content, 'sign:verify-failed:with-verifier-supplied-certificates', how=how, ret=v2.ret, **detail)
+            ctx.nontrivial('sign-extra', how, ns, len(content))
     if m is None:
         ctx.stat('info_reference_cannot_parse_signed_message')
         return
@@ -948,6 +964,17 @@ def u_signenv(ctx, u):
         rep.judge(ref is not None and len(ref) == ns and all(x == 'ok' for x in ref),
                   'signenv:verify-accepted-signer-info-invalid-by-reference', **detail)
     control = open_matrix(ctx, rep, 'signenv', opener, msg, m, rcpts, outsider, tname, content, extra_ok=extra, signer_verdicts=ref or [])
+    if control is not None:
+        # the opener's own certificates as the extra-signer-certificates argument (see u_sign)
+        ck0, ccert0, _ = control
+        stranger = Pki(rng, 'normal').leaf('verifier-owned', R.pub(rng.randrange(1, N - 1)), X.KU_DIGITAL_SIGNATURE)
+        for how, xc in (('unrelated', stranger), ('first-signer-only', signers[0].cert),
+                        ('all-signers-and-unrelated', b''.join(s_.cert for s_ in signers) + stranger)):
+            ctx.begin(['cms_deenvelop_and_verify', 'extra-certs', how, ns])
+            o2 = lib_deenvelop_and_verify(ctx, msg, ck0, ccert0, len(msg), extra=xc)
+            rep.judge(o2.ret == 1 and o2.content[:o2.content_len] == content, 'signenv:open-failed:with-verifier-supplied-certificates',
+                      how=how, ret=o2.ret, signers=ns)
+            ctx.nontrivial('signenv-extra', how, ns, len(content))
     if m is None:
         return
     # ---- zero signer infos / signer infos without certificate ----
